@@ -192,8 +192,16 @@ fn push_histories(pol: &str, file: &Bytes, reference: &Out, fails: &mut Vec<(Str
                     if len > 0 && dd.push_range(0..1, file.slice(0..1)).is_ok() {
                         local.push(("push_range accepted after decoding finished".into(), "oracle:protocol".into()));
                     }
-                    if !matches!(dd.try_decode(), Ok(DecodeResult::Finished)) {
-                        local.push(("try_decode after Data is not Finished".into(), "oracle:protocol".into()));
+                    // Finished is sticky: every later try_decode says Finished, every later push is refused
+                    for round in 0..3 {
+                        if !matches!(dd.try_decode(), Ok(DecodeResult::Finished)) {
+                            local.push((format!("try_decode #{} after Data is not Finished", round + 1), "oracle:protocol".into()));
+                            break;
+                        }
+                        if len > 0 && dd.push_range(0..1, file.slice(0..1)).is_ok() {
+                            local.push((format!("push_range accepted after try_decode #{} returned Finished", round + 1), "oracle:protocol".into()));
+                            break;
+                        }
                     }
                 }
             }
